@@ -5,11 +5,83 @@
    nw_n2i  <0|1> <reg>      the INTEGER_t NativeInteger_encode_uper/_oer hand to the wide encoder
    nw_xcode <N0|N1|W> <hex> decode the contents octets, re-encode as DER contents: OK <hex> | FAIL
                             (what `xcode T ber 02 LL <hex> der` does in a native signed / native unsigned / wide build)
-   spec_nw_value <hex>      the abstract value the octets denote *)
+   spec_nw_value <hex>      the abstract value the octets denote
+   opt_sim <hp> <ho> <tableA> <tableB>   coq/Rt/Options.v table_sim on two dumped descriptor tables: SIM | DIFF | FUEL
+                            (tables in the integer-tree wire format of lib/c13_descr.wire_table)
+   opt_slots <oer> <per> <nocon> <wide> <indirect> <constrained> <enum> <choice> <kmstring>
+                            emit_type_DEF's { oer, per, checker } slots: three letters of N(ull) T(able) O(wn checker) P(arent's checker)
+   opt_mslots <oer> <per> <nocon> <constrained>   the same for a member entry (emit_member_table) *)
 open Model
 open Drvlib
 
 let uns s = (s = "1")
+
+(* ---- integer trees:  tree := int | '[' tree (',' tree)* ']' | '[]' ---- *)
+type tree = I of z | T of tree list
+
+let parse_tree (s : string) : tree =
+  let n = String.length s in
+  let pos = ref 0 in
+  let rec item () =
+    if !pos >= n then failwith "tree: unexpected end";
+    if s.[!pos] = '[' then begin
+      incr pos;
+      if !pos < n && s.[!pos] = ']' then (incr pos; T [])
+      else begin
+        let acc = ref [item ()] in
+        while !pos < n && s.[!pos] = ',' do incr pos; acc := item () :: !acc done;
+        if !pos >= n || s.[!pos] <> ']' then failwith "tree: ] expected";
+        incr pos; T (List.rev !acc)
+      end
+    end else begin
+      let st = !pos in
+      if !pos < n && s.[!pos] = '-' then incr pos;
+      while !pos < n && s.[!pos] >= '0' && s.[!pos] <= '9' do incr pos done;
+      if !pos = st then failwith "tree: number expected";
+      I (cz_of_string (String.sub s st (!pos - st)))
+    end in
+  let t = item () in
+  if !pos <> n then failwith "tree: trailing input";
+  t
+
+let zi = function I z -> z | T _ -> failwith "tree: int expected"
+let li = function T l -> l | I _ -> failwith "tree: list expected"
+let zl t = List.map zi (li t)
+let bo t = (zi t <> Z0)
+let opt f t = match li t with [] -> None | [x] -> Some (f x) | _ -> failwith "tree: option expected"
+let ith t k = List.nth (li t) k
+
+let per1_of t = match zl t with
+  | [a; b; c; d; e] -> { p_flags = a; p_rbits = b; p_ebits = c; p_lb = d; p_ub = e }
+  | _ -> failwith "per1"
+let perc_of t = { pc_value = per1_of (ith t 0); pc_size = per1_of (ith t 1); pc_v2c = bo (ith t 2); pc_c2v = bo (ith t 3) }
+let oerc_of t = match zl t with [a; b; c] -> { o_width = a; o_pos = b; o_size = c } | _ -> failwith "oerc"
+let t2e_of t = match zl t with [a; b; c; d] -> { te_tag = a; te_el = b; te_first = c; te_last = d } | _ -> failwith "t2e"
+let t2es t = List.map t2e_of (li t)
+let member_of t =
+  { m_flags = zi (ith t 0); m_opt = zi (ith t 1); m_tag = zi (ith t 2); m_tmode = zi (ith t 3); m_type = zi (ith t 4);
+    m_per = opt perc_of (ith t 5); m_oer = opt oerc_of (ith t 6); m_default = bo (ith t 7); m_selector = bo (ith t 8) }
+let kinds = [| KSeq; KSet; KChoice; KSeqOf; KSetOf; KOpenType; KNativeInt; KInt; KNativeEnum; KEnum; KBool; KNull; KOctets; KBits; KAny;
+               KReal; KOid; KTime; KStr; KOther |]
+let spec_of t =
+  match int_of_cz (zi (ith t 0)) with
+  | 0 -> SNone
+  | 1 -> SSeq (t2es (ith t 1), zl (ith t 2), zi (ith t 3), zi (ith t 4), zi (ith t 5))
+  | 2 -> SSet (t2es (ith t 1), t2es (ith t 2), zi (ith t 3), zl (ith t 4))
+  | 3 -> SChoice (t2es (ith t 1), opt (fun c -> (zl (ith c 0), zl (ith c 1))) (ith t 2), zi (ith t 3))
+  | 4 -> SSetOf (zi (ith t 1))
+  | 5 -> SInt (List.map (fun p -> (zi (ith p 0), zl (ith p 1))) (li (ith t 1)), zl (ith t 2), zi (ith t 3), zi (ith t 4), zi (ith t 5), zi (ith t 6))
+  | 6 -> SOther
+  | _ -> failwith "spec"
+let ndescr_of t =
+  { nd = { d_id = zi (ith t 0); d_kind = kinds.(int_of_cz (zi (ith t 1))); d_tags = zl (ith t 2); d_all = zl (ith t 3);
+           d_elems = List.map member_of (li (ith t 4)); d_per = opt perc_of (ith t 5); d_oer = opt oerc_of (ith t 6);
+           d_spec = spec_of (ith t 7); d_bad = zi (ith t 8) };
+    nd_name = zl (ith t 9); nd_xml = zl (ith t 10) }
+let ntable_of s = let t = parse_tree s in { nt_roots = zi (ith t 0); nt_descrs = List.map ndescr_of (li (ith t 1)) }
+
+let slot_c = function SlotNull -> "N" | SlotTable -> "T" | SlotOwnChecker -> "O" | SlotParentChecker -> "P"
+let slots_s ((a, b), c) = slot_c a ^ slot_c b ^ slot_c c
 
 let dispatch cmd args =
   match cmd, args with
@@ -28,4 +100,15 @@ let dispatch cmd args =
                | Some r -> "OK " ^ hex_of_bytes (nativeInteger_der_contents r)
                | None -> "FAIL"))
   | "spec_nw_value", [h] -> Some (string_of_cz (twos_value (bytes_of_hex h)))
+  | "opt_sim", [hp; ho; a; b] ->
+      Some (try (match table_sim (uns hp) (uns ho) (ntable_of a) (ntable_of b) with VSim -> "SIM" | VDiff -> "DIFF" | VFuel -> "FUEL")
+            with Failure m -> "ERROR " ^ m)
+  | "opt_slots", [o; p; nc; w; i; c; e; ch; km] ->
+      let f = { gf_oer = uns o; gf_per = uns p; gf_no_constraints = uns nc; gf_wide = uns w; gf_indirect = uns i;
+                gf_compound = true; gf_quoted = false; gf_no_deps = false } in
+      Some (slots_s (type_slots f { ti_constrained = uns c; ti_enum = uns e; ti_choice = uns ch; ti_km_string = uns km }))
+  | "opt_mslots", [o; p; nc; c] ->
+      let f = { gf_oer = uns o; gf_per = uns p; gf_no_constraints = uns nc; gf_wide = false; gf_indirect = false;
+                gf_compound = true; gf_quoted = false; gf_no_deps = false } in
+      Some (slots_s (member_slots f (uns c)))
   | _ -> None
